@@ -24,3 +24,6 @@ register(Unit(P, "DERIVE/delete_snapshot", cp.h_delete_snapshot, functions=[f"{c
 from contracts import C19_locks as _c19
 register(Unit(P, "GUAR-lock/FileLock.release(inode-persistent)", _c19.h_release, functions=["file_lock:FileLock.release"], replay=_c19._replay_flock, reg_factory=_c19.registry))
 register(Unit(P, "GUAR-lock/FileLock._try_acquire_once", _c19.h_try_acquire_once, functions=["file_lock:FileLock._try_acquire_once"], replay=_c19._replay_flock, reg_factory=_c19.registry))
+
+from contracts import lemmas as _L  # noqa: E402
+register(Unit(P, "LEMMA/SER", _L.h_ser, functions=[], replay=cp._replay_mm_commit, uses=_L.SER_USES))
